@@ -3,7 +3,7 @@
    Model: DS.Parser (suffix-style model of duckscript/src/parser.rs); [parse_text] is parse_text
    with an include handler that cannot serve files (the domain excludes include directives with
    arguments); [line_error s] (ParserSpec) is the verdict of one physical line. *)
-Require Import DS.Base DS.Parser DS.ParserSpec DS.ParserFacts.
+Require Import DS.Base DS.Parser DS.ParserSpec DS.ParserFacts DS.Render DS.ParserClasses DS.ParserClassesProof.
 
 (* termination: the argument loop never runs out of its fuel, for any flags and any characters *)
 Theorem C08_args_terminate : forall fl l, parse_arguments_with fl l <> PErr EFuel.
@@ -49,3 +49,36 @@ Proof. exact parse_text_planted. Qed.
 (* the only errors a line can raise by itself *)
 Theorem C08_line_errors : forall s e, parse_line s = PErr e -> line_err e = true.
 Proof. exact parse_line_err. Qed.
+
+(* ---- malformed lines are rejected in place ---------------------------------------------------------
+   [bad_line] (DS.ParserClasses) describes a line that is well formed up to exactly one malformation;
+   [render_bad] writes it, [valid_bad] is the boolean side condition, [class_of] one of the seven
+   classes of the property: unterminated quote, undocumented escape, dangling backslash, name
+   beginning with a double quote, name containing a backslash, '!' alone, '!' + unknown word. *)
+
+(* the verdict of a malformed line is the error kind of its class *)
+Theorem C08_class_line : forall b,
+  valid_bad b = true -> line_error (render_bad b) = Some (class_kind (class_of b)).
+Proof. intros b H. rewrite <- bad_kind_class. exact (bad_line_error b H). Qed.
+
+(* good1 ++ [bad] ++ rest fails with the kind of bad's class at line length good1 + 1 *)
+Theorem C08_errors : forall t good b rest,
+  lines t = good ++ render_bad b :: rest ->
+  Forall (fun s => line_error s = None) good -> valid_bad b = true ->
+  parse_text t = TErr (class_kind (class_of b)) (N.of_nat (length good) + 1) None.
+Proof. exact errors_planted. Qed.
+
+(* the same for the text obtained by terminating every line with LF *)
+Theorem C08_errors_text : forall good b rest,
+  forallb plain_line (good ++ render_bad b :: rest) = true ->
+  Forall (fun s => line_error s = None) good -> valid_bad b = true ->
+  parse_text (join_lf (good ++ render_bad b :: rest))
+  = TErr (class_kind (class_of b)) (N.of_nat (length good) + 1) None.
+Proof. exact errors_planted_text. Qed.
+
+(* non-vacuity: every class has a valid member *)
+Theorem C08_errors_nonvacuous :
+  forallb valid_bad ex_bad = true /\
+  map class_of ex_bad = [KUnterminatedQuote; KUndocumentedEscape; KDanglingBackslash; KNameBeginsWithQuote;
+                         KNameContainsBackslash; KBangAlone; KBangUnknown].
+Proof. exact (conj ex_bad_valid ex_bad_classes). Qed.
